@@ -44,7 +44,7 @@ CHECKS = {
                                               {"name": "FuzzC16Decode", "fuzz": True, "quick": None, "thorough": {"checks": 0, "shards": 1, "timeout": 400, "fuzztime": "120s"}}],
             "assumptions": ["cmd/main.go's validation gate is taken on reading; validator and decoder are checked as functions"]},
     "C17": {"level": "exploration", "tests": [direct("TestC17", q=3000, t=40000)], "assumptions": COMMON_ASSUMPTIONS},
-    "C18": {"level": "fault_enumeration", "tests": [direct("TestC18", q=60, t=400), direct("TestC18Consecutive", q=300, t=3000)], "assumptions": COMMON_ASSUMPTIONS},
+    "C18": {"level": "fault_enumeration", "tests": [direct("TestC18", q=60, t=400), direct("TestC18Consecutive", q=300, t=3000), hist("TestC18History", t=1500)], "assumptions": COMMON_ASSUMPTIONS},
     "C19": {"level": "fault_enumeration", "tests": [direct("TestC19Direct", q=3000, t=40000), hist("TestC19History")], "assumptions": COMMON_ASSUMPTIONS},
-    "C20": {"level": "fault_enumeration", "tests": [hist("TestC20")], "assumptions": COMMON_ASSUMPTIONS},
+    "C20": {"level": "fault_enumeration", "tests": [hist("TestC20"), hist("TestC20Enum", q=60, t=300, steps=20, tsteps=25)], "assumptions": COMMON_ASSUMPTIONS},
 }
